@@ -22,7 +22,9 @@ RULE = (
     "untouched (audit-hook event log + snapshot).  Positive (57..64 bits and random fitting CAN "
     "schemas): both generators succeed and every generated DBC (read by cantools and by the own "
     "reader) and every generated *_can.c (decode/encode macros, .dlc) is scanned: no signal extends "
-    "beyond 8*DLC, no two non-multiplexed signals overlap.  distinct = (size or variable kind, "
+    "beyond 8*DLC, no two non-multiplexed signals overlap (bit sets computed per DBC byte-order rules); "
+    "the scan also covers schemas with big-endian signals at arbitrary, unaligned positions, which the "
+    "generator may refuse but must never emit unsound.  distinct = (size or variable kind, "
     "placement, alone/mixed, generator)."
 )
 ASSUMPTIONS = [
@@ -174,12 +176,35 @@ def attempt_c(fcp, root):
     return res, raised, before, after, muts, out_dir
 
 
+def dbc_signal_bits(start, length, little):
+    """Set of frame bit numbers (DBC numbering: byte*8 + bit) a signal occupies.  Little endian:
+    start is the LSB, bits ascend.  Big endian (Motorola): start is the MSB, the signal runs down to
+    bit 0 of its byte and continues at bit 7 of the next byte."""
+    if little:
+        return set(range(start, start + length))
+    bits = set()
+    b = start
+    for _ in range(length):
+        bits.add(b)
+        b = b + 15 if b % 8 == 0 else b - 1
+    return bits
+
+
 def scan_dbc(run, contents, case):
     """Extent / overlap invariant on one DBC text, with both readers."""
     import cantools
 
     mine = dbcread.read(contents)
-    db = cantools.database.load_string(contents, "dbc")
+    try:
+        db = cantools.database.load_string(contents, "dbc")
+    except Exception as e:
+        # cantools validates extents/overlaps when loading: a DBC it refuses for that reason is unsound
+        msg = str(e)
+        if "overlapping" in msg or "does not fit" in msg or "outside" in msg:
+            run.violation("generated DBC is unsound (independent reader refuses it): %s" % msg[:200], case)
+        else:
+            run.violation("generated DBC cannot be loaded by an independent reader: %s" % msg[:200], case)
+        return False
     for m in db.messages:
         own = mine[m.frame_id]
         sigs = []
@@ -188,17 +213,17 @@ def scan_dbc(run, contents, case):
             if (o["start"], o["length"]) != (s.start, s.length):
                 run.inconclusive_because("DBC readers disagree on signal %s" % s.name)
                 return False
-            lo = s.start if s.byte_order == "little_endian" else s.start - 7
-            hi = lo + s.length
-            if lo < 0 or hi > 8 * m.length:
-                run.violation("DBC signal %s of %s covers bits %d..%d, the message has %d bytes" % (s.name, m.name, lo, hi, m.length), case)
+            bits = dbc_signal_bits(s.start, s.length, s.byte_order == "little_endian")
+            if min(bits) < 0 or max(bits) >= 8 * m.length:
+                run.violation("DBC signal %s of %s covers frame bits %d..%d, the message has %d bytes" % (s.name, m.name, min(bits), max(bits), m.length), case)
                 return False
-            sigs.append((lo, hi, s.name, s.multiplexer_ids))
-        sigs.sort()
-        for (a0, a1, an, am), (b0, b1, bn, bm) in zip(sigs, sigs[1:]):
-            if b0 < a1 and not (am and bm):
-                run.violation("DBC signals %s and %s of %s overlap" % (an, bn, m.name), case)
-                return False
+            sigs.append((bits, s.name, s.multiplexer_ids))
+        for i in range(len(sigs)):
+            for j in range(i + 1, len(sigs)):
+                (ab, an, am), (bb, bn, bm) = sigs[i], sigs[j]
+                if ab & bb and not (am and bm):
+                    run.violation("DBC signals %s and %s of %s overlap (frame bits %s)" % (an, bn, m.name, sorted(ab & bb)[:8]), case)
+                    return False
         run.count("dbc_messages_scanned")
     return True
 
@@ -328,6 +353,41 @@ def run(run):
                         g = good_bindings(r, r.randint(1, 3), 200)
                         body = g + body if r.random() < 0.5 else body + g
                     judge(run, body, True, "variable-size field (%s) at position %d, %s" % (kind, pos, "mixed" if mixed else "alone"), root)
+        # big-endian signals at arbitrary (also unaligned) positions and widths: generation may refuse
+        # them; whatever it does emit must still keep every signal inside its message and apart
+        n_be = run.pick(120, 2000)
+        for i in range(n_be):
+            idx += 1
+            if not run.mine(idx):
+                continue
+            r = run.rng("bigendian", i)
+            decls = cansch.gen_can_schema(r, prefix="E", flat=True, big_endian=False, mux=False, devices=True, floats=False, buses=True)
+            decls = [d for d in decls if not (d["kind"] == "impl" and d["protocol"] != "can")]
+            sdecl = {d["name"]: d for d in decls if d["kind"] == "struct"}
+            for d in decls:
+                if d["kind"] == "impl":
+                    for f in sdecl[d["type"]]["fields"]:
+                        if f["type"][0] in ("u", "i") and r.random() < 0.5:
+                            d["items"].append(("signal", f["name"], [("endianess", ("s", "big"))]))
+            text = S.print_schema(decls)
+            res = CC.parse(text)
+            if res.is_err():
+                run.violation("front end rejected the schema: %r" % (res.err(),), {"schema": text})
+                continue
+            kind, out = attempt_dbc(res.unwrap())
+            run.count("bigendian_attempts")
+            if kind == "files":
+                ok = True
+                for f in out:
+                    if not scan_dbc(run, str(f["contents"]), {"schema": text, "what": "big-endian signals at arbitrary positions", "dbc": str(f["contents"])}):
+                        ok = False
+                        break
+                if ok:
+                    run.count("bigendian_emitted_and_sound")
+                    run.case(sig="big-endian|emitted|%d" % (i % 40))
+            else:
+                run.count("bigendian_refused")
+                run.case(sig="big-endian|refused|%s" % type(out).__name__)
         # positive scans over random fitting flat CAN schemas (the C generator's subset)
         n = run.pick(150, 2500)
         for i in range(n):
